@@ -176,6 +176,103 @@ func suiteSalt(c *Ctx) {
 			}
 		}
 	}
+	mixedHistory(c)
+}
+
+// mixedHistory: generation calls of different schemes interleaved in one process (requests of 8 and 16
+// raw bytes and of 2..16 symbols alternate in changing proportions), every salt still full-entropy:
+// no long run of zero bytes in a decoded salt, no repeats; and the salt as a FUNCTION of the delivered
+// entropy compared with the model (`newhash` ops under scripted entropy, also interleaved).
+func mixedHistory(c *Ctx) {
+	apis := map[string]schemeAPI{}
+	for _, a := range schemeAPIs {
+		apis[a.name] = a
+	}
+	rounds := 40
+	if c.Thorough() {
+		rounds = 1500
+	}
+	seen := map[string]bool{}
+	zeroRun := func(raw []byte) int {
+		best, cur := 0, 0
+		for _, b := range raw {
+			if b == 0 {
+				cur++
+				if cur > best {
+					best = cur
+				}
+			} else {
+				cur = 0
+			}
+		}
+		return best
+	}
+	for r := 0; r < rounds; r++ {
+		// an odd/even number of 8-byte requests shifts the alignment of what follows
+		var seq []string
+		for k := 0; k < 1+c.Rng.Intn(3); k++ {
+			seq = append(seq, "argon2")
+		}
+		for k := 0; k < 18+c.Rng.Intn(6); k++ {
+			seq = append(seq, []string{"bcrypt", "bcrypt", "bcrypt", "md5", "des", "sha256", "argon2"}[c.Rng.Intn(7)])
+		}
+		for _, name := range seq {
+			api := apis[name]
+			h, err := api.newHash("pw", api.costs[0][0], api.costs[0][1])
+			if err != nil {
+				c.Fail("salt", name+": NewHash failed in a mixed history: "+err.Error(), map[string]string{"suite": "salt", "scheme": name})
+				continue
+			}
+			s, _, ok := saltOf(api, h)
+			if !ok {
+				continue
+			}
+			c.Direct++
+			var raw []byte
+			switch name {
+			case "bcrypt":
+				raw, _ = bcrypt.Encoding.DecodeString(s)
+			case "argon2":
+				raw, _ = base64.RawStdEncoding.DecodeString(s)
+			}
+			// a run of 7 zero bytes in an honest 16-byte salt has probability < 2e-16
+			if z := zeroRun(raw); z >= 7 {
+				c.Fail("salt", fmt.Sprintf("%s: decoded salt %x has %d consecutive zero bytes (history of mixed request sizes)", name, raw, z),
+					map[string]string{"suite": "salt", "scheme": name, "salt": hx([]byte(s))})
+			}
+			if (name == "bcrypt" || name == "argon2") && seen[name+s] {
+				c.Fail("salt", name+": salt repeated in a mixed history: "+s, map[string]string{"suite": "salt", "scheme": name})
+			}
+			seen[name+s] = true
+		}
+	}
+	// salt = f(entropy): scripted entropy, interleaved schemes, compared with the model byte for byte
+	n := 60
+	if c.Thorough() {
+		n = 1500
+	}
+	order := []string{"argon2", "bcrypt", "md5", "bcrypt", "sha256", "des", "argon2", "argon2", "bcrypt", "sha512", "desext", "sunmd5", "bcrypt"}
+	for i := 0; i < n; i++ {
+		name := order[i%len(order)]
+		api := apis[name]
+		ent := make([]byte, 64)
+		c.Rng.Read(ent)
+		pw := "pw" + fmt.Sprint(i%3)
+		var h string
+		var err error
+		used := withEntropy(ent, func() {
+			if r := safely(func() string { h, err = api.newHash(pw, api.costs[0][0], api.costs[0][1]); return "" }); r != "" {
+				err = fmt.Errorf("NewHash %s: %s", r, lastPanic)
+			}
+		})
+		res := ""
+		if err != nil {
+			res = classifyErr(err)
+		} else {
+			res = fmt.Sprintf("ok %s %d", hx([]byte(h)), used)
+		}
+		c.Op(fmt.Sprintf("newhash %s %s %d %d %s", name, hx([]byte(pw)), api.costs[0][0], api.costs[0][1], hx(ent)), res)
+	}
 }
 
 func init() {
